@@ -274,6 +274,15 @@ func isSpecialSymbol(ch rune) bool {
 func (s *scanner) scanSpecialSymbol(ch rune) (token tok, value string, startPos, endPos TokenPos) {
 	startPos = s.pos
 	defer func() { endPos = s.pos }()
+
+	if ch == '-' {
+		// '-o' is an alternative spelling of '-*', unless the 'o' starts a longer name: then the
+		// '-' is a polarity annotation (e.g. wait -out)
+		if next, _ := s.r.Peek(2); len(next) == 2 && next[0] == 'o' && (isAlphaNum(rune(next[1])) || isUnderscore(rune(next[1])) || isApostrophe(rune(next[1]))) {
+			return MINUS, "-", startPos, endPos
+		}
+	}
+
 	// ch := s.read()
 	ch2 := s.read()
 
